@@ -24,7 +24,7 @@ META = dict(
     bounds=dict(quick="(A) every input of the three exact lengths with prefix and coordinates "
                       "fully symbolic, and lengths 0,1,L-1,L+2,2L: all 17 curves, bytes and SPKI "
                       "DER containers, point objects with validation on; (B) toy curves p in "
-                      "{11,13,19,23}, all byte strings of length 1..3; (C) p in {7,11,13}, all "
+                      "{11,13,19,23}, all byte strings of length 1..3; (C) cofactor 2 and 4 curves over p in {7,...,19}, all "
                       "(x, y) in [0,2p)^2",
                 thorough="(B) p up to 61"),
     stubs=ecstub.STUBS + eg.STUBS,
@@ -258,39 +258,44 @@ def toy_compressed(tier, idx):
 
 # -- (C) cofactor > 1, real arithmetic ----------------------------------------------------
 
+_COF = None
+
+
 def _cofactor_curves():
-    """deterministic: small curves with group order h*n, h in {2,4}, n prime >= 5"""
+    """deterministic: per prime p one curve with cofactor 2 and one with cofactor 4
+    (group order h*n, n prime >= 5), G a generator of the order-n subgroup"""
+    global _COF
+    if _COF is not None:
+        return _COF
     out = []
-    for p in (7, 11, 13):
+    for p in (7, 11, 13, 17, 19):
+        have = set()
         for a in range(p):
             for b in range(p):
-                if (4 * a ** 3 + 27 * b * b) % p == 0:
+                if (4 * a ** 3 + 27 * b * b) % p == 0 or len(have) == 2:
                     continue
                 pts = eg.curve_points(p, a, b)
                 N = len(pts) + 1
                 for hh in (2, 4):
-                    if N % hh == 0 and eg._is_prime(N // hh) and N // hh >= 5:
-                        n = N // hh
-                        # a generator of the order-n subgroup
-                        for P in pts:
-                            Q = None
-                            for _ in range(hh):
-                                Q = eg.aff_add(Q, P, a, p)
-                            if Q is not None:
-                                R, k = None, 0
-                                ok = True
-                                for k in range(1, n + 1):
-                                    R = eg.aff_add(R, Q, a, p)
-                                    if R is None:
-                                        break
-                                if k == n:
-                                    out.append(dict(p=p, a=a, b=b, n=n, h=hh, G=Q, N=N))
-                                    break
-                        break
-                if len([c for c in out if c["p"] == p]) >= 2:
-                    break
-            if len([c for c in out if c["p"] == p]) >= 2:
-                break
+                    if hh in have or N % hh or not eg._is_prime(N // hh) or N // hh < 5:
+                        continue
+                    n = N // hh
+                    for P in pts:
+                        Q = None
+                        for _ in range(hh):
+                            Q = eg.aff_add(Q, P, a, p)
+                        if Q is None:
+                            continue
+                        R, k = None, 0
+                        for k in range(1, n + 1):
+                            R = eg.aff_add(R, Q, a, p)
+                            if R is None:
+                                break
+                        if k == n:
+                            out.append(dict(p=p, a=a, b=b, n=n, h=hh, G=Q, N=N))
+                            have.add(hh)
+                            break
+    _COF = out
     return out
 
 
